@@ -757,7 +757,28 @@ pub fn generate(seed: u64, knobs: &Knobs) -> C10Scenario {
             71..=84 => {
                 // configuration change
                 let mut parts = world.config.clone();
-                match rh.below(9) {
+                match rh.below(10) {
+                    9 => {
+                        // the same rules in another order (nothing else changes)
+                        match parts.rules.clone() {
+                            Some(mut rules) if rules.len() >= 2 => {
+                                if rh.chance(1, 2) {
+                                    rules.reverse();
+                                } else {
+                                    let i = rh.below(rules.len());
+                                    let j = (i + 1 + rh.below(rules.len() - 1)) % rules.len();
+                                    rules.swap(i, j);
+                                }
+                                parts.rules = Some(rules);
+                            }
+                            _ => {
+                                // plain rule names whose order matters on most sources
+                                parts.rules = Some(
+                                    ORDER_SENSITIVE_RULES.iter().map(|r| format!("\"{}\"", r)).collect(),
+                                );
+                            }
+                        }
+                    }
                     8 => {
                         // only a property of convert_require changes
                         if parts.convert_sourcemap.is_some() {
@@ -1237,6 +1258,17 @@ fn enum_op(kind: usize, stamp: usize) -> Vec<Op> {
         _ => vec![Op::Rename { from: "src/other.lua".into(), to: "src/lib/moved.lua".into() }],
     }
 }
+
+/// Rules without properties that do not commute on the corpus (used by the
+/// "same rules, other order" configuration change).
+const ORDER_SENSITIVE_RULES: &[&str] = &[
+    "remove_function_call_parens",
+    "compute_expression",
+    "rename_variables",
+    "group_local_assignment",
+    "remove_unused_variable",
+    "convert_index_to_field",
+];
 
 pub const ENUM_ALPHABET: usize = 16;
 
